@@ -3,4 +3,5 @@ package checks
 // Registry maps property ids to their check entry points.
 var Registry = map[string]func(tier string) int{
 	"C10": C10,
+	"C16": C16,
 }
